@@ -30,7 +30,11 @@ META = {
             "calls unmap (read off the source), every way out of such a body on which the client was registered "
             "runs the unmap, and an early return between the two is kept as a refuted counter-model; a stream with "
             "a SideToken callback that answers ok or an error over time and endpoints with and without Siding reads "
-            "the registry and makes a front connection after every connection, also one the server refused.",
+            "the registry and makes a front connection after every connection, also one the server refused. "
+            "Notifications under every callback configuration (both, only OnConnect, only OnDisconnect, neither): one "
+            "disconnect per ended connection iff OnDisconnect is configured, with session 0 without OnConnect; the "
+            "guard of the deferred disconnect call is read off the source, a defer nested in the OnConnect condition "
+            "is kept as a refuted counter-model, and that stream runs under all four configurations.",
     "note": "Trusted: Coq kernel + vm_compute; translator gen/sni_rpc.go; harness/cmd/c15 + sniproxy/verif_rpc.go + "
             "verif_point.go (one schedule point after ep.serve()); sync.Mutex, the websocket upgrade and the "
             "background old.Close() are single abstract steps; the reason a serve loop ends is nondeterministic in "
@@ -212,15 +216,41 @@ def impl_oracle(c):
                             else "front-served-without-live-endpoint",
                             "after every endpoint of round %d had ended a front connection was %s"
                             % (o["round"], o.get("final_front"))))
-            per = {}
-            for x in o.get("notes", []):
-                per.setdefault(x["s"], []).append((x["k"], x["n"]))
-            if len(per) != accepted:
-                out.append(("callbacks-unpaired", "%d accepted connections but notifications for %d sessions (round %d)"
-                            % (accepted, len(per), o["round"])))
-            for sv, l in sorted(per.items()):
-                if len(l) != 2 or l[0][0] != "connect" or l[1][0] != "disconnect" or l[0][1] != l[1][1]:
-                    out.append(("callbacks-unpaired", "session %s has notifications %s (round %d)" % (sv, l, o["round"])))
+            cbs = c.get("callbacks") or "both"
+            cfg = "callbacks configured: %s; round %d, %d accepted connections, all ended" % (cbs, o["round"], accepted)
+            nts = o.get("notes", [])
+            cons = [x for x in nts if x["k"] == "connect"]
+            dis = [x for x in nts if x["k"] == "disconnect"]
+            want_c = accepted if cbs in ("both", "connect") else 0
+            want_d = accepted if cbs in ("both", "disconnect") else 0
+            if len(cons) != want_c:
+                out.append(("callbacks-unpaired", "%d connect notifications, expected %d; %s" % (len(cons), want_c, cfg)))
+            if len(dis) < want_d:
+                out.append(("disconnect-not-notified",
+                            "%d disconnect notifications %s for %d accepted connections that have ended (each must "
+                            "produce exactly one OnDisconnect{name, session}%s); %s"
+                            % (len(dis), [(x["n"], x["s"]) for x in dis], want_d,
+                               ", session 0 as OnConnect is not configured" if cbs == "disconnect" else "", cfg)))
+            if len(dis) > want_d:
+                out.append(("disconnect-twice" if want_d else "callbacks-unpaired",
+                            "%d disconnect notifications %s, expected %d; %s"
+                            % (len(dis), [(x["n"], x["s"]) for x in dis], want_d, cfg)))
+            if cbs == "disconnect" and any(x["s"] != 0 for x in dis):
+                out.append(("disconnect-wrong-session", "without OnConnect the session of a disconnect must be 0: %s; %s"
+                            % ([(x["n"], x["s"]) for x in dis], cfg)))
+            if cbs == "both":
+                per = {}
+                for x in nts:
+                    per.setdefault(x["s"], []).append((x["k"], x["n"]))
+                for sv, l in sorted(per.items()):
+                    ks = [a for a, _ in l]
+                    if ks.count("disconnect") > 1:
+                        out.append(("disconnect-twice", "session %s has notifications %s; %s" % (sv, l, cfg)))
+                    elif ks == ["connect"]:
+                        out.append(("disconnect-not-notified", "session %s got its connect notification and, although "
+                                    "its connection has ended, no disconnect; %s" % (sv, cfg)))
+                    elif len(l) != 2 or l[0][0] != "connect" or l[1][0] != "disconnect" or l[0][1] != l[1][1]:
+                        out.append(("callbacks-unpaired", "session %s has notifications %s; %s" % (sv, l, cfg)))
         return out
     if c["stream"] == "silent":
         out = [x for x in out if x[0] not in ("callbacks-unpaired", "hang")]
@@ -334,7 +364,7 @@ def run(ck):
         rc, out, err = vlib.sh2([binp, "-seed", str(ck.seed), "-n", str(n), "-free", str(nfree),
                                  "-race", str(nrace), "-silent", str(nsilent),
                                  "-front", "2" if not ck.thorough else "12",
-                                 "-token", "2" if not ck.thorough else "20", "-slow", "0" if not ck.thorough else "1",
+                                 "-token", "4" if not ck.thorough else "20", "-slow", "0" if not ck.thorough else "1",
                                  "-budget", "150" if not ck.thorough else "900"],
                                 timeout=3000)
         if rc != 0:
@@ -364,7 +394,9 @@ def run(ck):
             ck.coverage["front_refused_dials"] = ck.coverage.get("front_refused_dials", 0) \
                 + sum(o.get("refused", 0) for o in c.get("front", []))
         if c["stream"] == "token":
-            key = [c["i"], [[(t.get("siding"), t.get("token"), t.get("outcome"), t.get("front_token"), t.get("front"))
+            cc = ck.coverage.setdefault("token_stream_callback_configurations", {})
+            cc[c.get("callbacks") or "both"] = cc.get(c.get("callbacks") or "both", 0) + len(c.get("token", []))
+            key = [c["i"], c.get("callbacks"), [[(t.get("siding"), t.get("token"), t.get("outcome"), t.get("front_token"), t.get("front"))
                              for t in o.get("conns", [])] for o in c.get("token", [])]]
             tk = ck.coverage.setdefault("token_stream_connections", {})
             for o in c.get("token", []):
